@@ -96,6 +96,11 @@ type Out struct {
 	// error? (the `if err := ..AuthorizeQuery(..); err != nil {` body has an unconditional `return <non-nil>` of its own)
 	CheckAuthzReturnsAll bool `json:"check_authz_returns_all_errors"`
 	CheckAuthzFound      bool `json:"check_authz_found"`
+	// lib/metaclient: in every update loop of the client-side catalogue copy (pollForUpdates, pollForUpdatesV2) the password
+	// cache is refreshed (UpdateAuthCache) under exactly the conditions under which the waiters are notified of the new
+	// catalogue (same enclosing ifs as the `close(notifyC)` loop); AuthRefreshLoops = loops found
+	AuthRefreshWithEveryUpdate bool `json:"auth_refresh_with_every_update"`
+	AuthRefreshLoops           int  `json:"auth_refresh_loops"`
 }
 
 // one arm of the statement type switch of (*UserInfo).AuthorizeQueryForRwUser, in a canonical rendering of what it does
@@ -393,6 +398,7 @@ func main() {
 	scanRwRules(repo)
 	scanUnrestricted(repo)
 	scanCheckAuthorization(httpd)
+	scanAuthRefresh(repo)
 	if out.Problems == nil {
 		out.Problems = []string{}
 	}
@@ -1905,4 +1911,73 @@ func scanCheckAuthorization(p *packages.Package) {
 		return false
 	})
 	out.CheckAuthzReturnsAll = seen && all
+}
+
+// scanAuthRefresh: see Out.AuthRefreshWithEveryUpdate
+func scanAuthRefresh(repo string) {
+	file := filepath.Join(repo, "lib/metaclient/meta_client_impl.go")
+	pfset := token.NewFileSet()
+	f, err := parser.ParseFile(pfset, file, nil, 0)
+	if err != nil {
+		problem("meta_client_impl.go: %v", err)
+		return
+	}
+	all := true
+	for _, d := range f.Decls {
+		fd, ok := d.(*ast.FuncDecl)
+		if !ok || fd.Body == nil || !strings.HasPrefix(fd.Name.Name, "pollForUpdates") {
+			continue
+		}
+		// enclosing if statements of a node
+		var notifyIfs, refreshIfs [][]*ast.IfStmt
+		var stack []ast.Node
+		ast.Inspect(fd.Body, func(n ast.Node) bool {
+			if n == nil {
+				stack = stack[:len(stack)-1]
+				return true
+			}
+			stack = append(stack, n)
+			call, ok := n.(*ast.CallExpr)
+			if !ok {
+				return true
+			}
+			var ifs []*ast.IfStmt
+			for _, a := range stack {
+				if is, ok := a.(*ast.IfStmt); ok {
+					ifs = append(ifs, is)
+				}
+			}
+			if id, ok := call.Fun.(*ast.Ident); ok && id.Name == "close" {
+				notifyIfs = append(notifyIfs, ifs)
+			}
+			if sel, ok := call.Fun.(*ast.SelectorExpr); ok && sel.Sel.Name == "UpdateAuthCache" {
+				refreshIfs = append(refreshIfs, ifs)
+			}
+			return true
+		})
+		if len(notifyIfs) == 0 {
+			continue
+		}
+		out.AuthRefreshLoops++
+		for _, ni := range notifyIfs {
+			found := false
+			for _, ri := range refreshIfs {
+				if len(ri) == len(ni) {
+					same := true
+					for i := range ri {
+						if ri[i] != ni[i] {
+							same = false
+						}
+					}
+					if same {
+						found = true
+					}
+				}
+			}
+			if !found {
+				all = false
+			}
+		}
+	}
+	out.AuthRefreshWithEveryUpdate = all && out.AuthRefreshLoops > 0
 }
